@@ -110,6 +110,7 @@ func TestVerifC05Pipeline(t *testing.T) {
 		pl.nominator = newNominator(nil, nil)
 		cache := pl.reservationCache
 		reh := &reservationEventHandler{cache: cache, rrNominator: pl.nominator}
+		peh := &podEventHandler{cache: cache, nominator: pl.nominator}
 		_ = rIdx.Replace(nil, "")
 		_ = pIdx.Replace(nil, "")
 
@@ -119,6 +120,7 @@ func TestVerifC05Pipeline(t *testing.T) {
 		reqs := map[int][c05D]int64{} // pod uid -> requests (absent = -1)
 		stale := map[int]bool{}       // allocate-once reservation got its first pod and no reservation event since
 		gone := map[int]bool{}        // late reservation deleted (or lost from the lister): no further steps
+		var retry []int               // rolled-back pods waiting in the queue for their next cycle (same uid)
 		nextPod := 10
 
 		// ORACLE on the harness' own truth (bound / reqs), after every step: a cached reservation holds exactly the
@@ -216,6 +218,11 @@ func TestVerifC05Pipeline(t *testing.T) {
 			rsvs[u], objs[u] = p, o
 			deliver(u, true)
 		}
+		apiPodOf := func(p c05Pod, k *corev1.Pod) *corev1.Pod { // the pod as the API server has it: unbound, no annotation
+			ap := p.build()
+			ap.Labels = k.Labels
+			return ap
+		}
 		liveU := func() []int { // every reservation object that still exists, by uid
 			var us []int
 			for u := range rsvs {
@@ -309,6 +316,11 @@ func TestVerifC05Pipeline(t *testing.T) {
 				h.Tag(fmt.Sprintf("pipe:late:rsv:%d", rc))
 				c05DumpAndCheck(h, cache, objs)
 				truthCheck("after Reserve of a reserve pod")
+				if rc == 0 { // ORACLE completeness on the harness' truth: the reservation is now placed on `node`
+					if _, ok := cache.reservationsOnNode[nodeName][types.UID(strconv.Itoa(u))]; !ok {
+						h.Fail("C05:index-missing", "the reserve pod of reservation %d was reserved on %s but reservationsOnNode[%s] does not list it", u, nodeName, nodeName)
+					}
+				}
 				if rc == 0 && outcome >= 3 { // Bind wrote Status.NodeName / Available; the informer delivers the update
 					o.node, o.phase = node, 1
 					deliver(u, false)
@@ -347,6 +359,11 @@ func TestVerifC05Pipeline(t *testing.T) {
 					}
 				case 1:
 					o.once = !o.once
+				case 2: // the object is being deleted (finalizer pending) / the deletion is ... not undone, but a later object may lack it
+					if r.Bool() {
+						o.term = !o.term
+						h.Tag("pipe:rsv-terminating-flip")
+					}
 				}
 				h.Tag("pipe:op:eupd")
 				deliver(u, false)
@@ -370,7 +387,12 @@ func TestVerifC05Pipeline(t *testing.T) {
 				truthCheck("after the deletion of an assigned pod")
 			default: // one scheduling cycle
 				pu := nextPod
-				nextPod++
+				if len(retry) > 0 && r.Chance(1, 2) { // a rolled-back pod comes back from the queue
+					pu, retry = retry[0], retry[1:]
+					h.Tag("pipe:cycle-of-rolled-back-pod")
+				} else {
+					nextPod++
+				}
 				app := majority
 				if r.Chance(1, 5) {
 					app = 3 - majority
@@ -392,6 +414,13 @@ func TestVerifC05Pipeline(t *testing.T) {
 					}
 					if nL > 0 && r.Chance(1, 4) {
 						affName = 5 + r.Intn(nL)
+					}
+				}
+				for _, u := range liveU() { // a terminating reservation is only reachable by NAME (the name path skips IsUnschedulable)
+					if rsvs[u].o.term && rsvs[u].o.node == 1 && r.Chance(1, 2) {
+						hasAff, hasName, affName, affZone = true, true, u, 0
+						h.Tag("pipe:name-affinity-to-terminating")
+						break
 					}
 				}
 				if hasAff {
@@ -618,6 +647,8 @@ func TestVerifC05Pipeline(t *testing.T) {
 						}
 					}
 					rst := pl.Reserve(ctx, cs, kpod, "n1")
+					// frameworkExtenderImpl.RunReservePluginsReserve drops the pod's nomination right after the Reserve plugins
+					pl.nominator.DeleteNominatedReservePodOrReservation(kpod)
 					rc := c05CodeOf(rst)
 					obs = append(obs, fmt.Sprintf("rsv %d", rc))
 					h.Tag(fmt.Sprintf("pipe:rsv:%d", rc))
@@ -734,6 +765,17 @@ func TestVerifC05Pipeline(t *testing.T) {
 					c05DumpAndCheck(h, cache, objs)
 					delete(bound, pu)
 					truthCheck(fmt.Sprintf("after Unreserve of pod %d (PreBind ran: %v)", pu, doPreBind))
+					switch r.Intn(3) {
+					case 0: // the pod is retried later
+						retry = append(retry, pu)
+					case 1: // the pod is deleted: its informer object was never bound and carries no annotation
+						hp := c05HPod{p: pod}
+						h.Op("hdel %s", hp.line())
+						h.Tag("pipe:op:hdel-after-rollback")
+						peh.OnDelete(apiPodOf(pod, kpod))
+						c05DumpAndCheck(h, cache, objs)
+						truthCheck(fmt.Sprintf("after the Delete event of rolled-back pod %d", pu))
+					}
 					if assumedInto != 0 {
 						// a further owner asks for what the rolled-back pod had asked for: restricted fit on the live entry
 						// (or, half of the time, for exactly the remainder by the harness' own books / one above it)
